@@ -14,6 +14,7 @@ Expected(e) ==
     [] e.op = "Zoned.wall" -> Ok([w |-> Wall(Z(e), e.args.t), off |-> OffsetAt(Z(e), e.args.t)])
     [] e.op = "Zoned.views" -> IF e.args.via = "string" THEN (LET r == StringTrip(Z(e), e.args.t) IN IF r.kind = "ok" THEN Ok(Views(Z(e), r.val)) ELSE r) ELSE Ok(Views(Z(e), e.args.t))
     [] e.op = "Zoned.fromPartial" -> InterpretBag(Z(e), e.args.w, e.args.offk, e.args.offmin * 60, e.args.dis, e.args.offopt)
+    [] e.op = "Zoned.fromDate" -> IF e.args.tt = "none" THEN Ok(StartOfDay(Z(e), e.args.day * 86400)) ELSE Disambiguate(Z(e), e.args.day * 86400, "compatible")
     [] e.op = "Zoned.relTo" -> Interpret(Z(e), e.args.w, e.args.offk, e.args.off, "compatible", "reject", TRUE)
     [] e.op = "Zoned.fromStr" -> Interpret(Z(e), e.args.w, e.args.offk, e.args.off, e.args.dis, e.args.offopt, TRUE)
     [] e.op = "Zoned.add" -> ZAdd(Z(e), e.args.t, e.args.dur, Get(e.args, "ovf", "constrain"))
@@ -37,6 +38,7 @@ ZoneTag(z) == (IF NT(z) = 0 THEN "fixed" ELSE IF \E i \in 1..NT(z) : AbsI(SegOff
 ClsOf(e) ==
   CASE e.op = "Zoned.fromLocal" -> Classify(Z(e), e.args.w) \o "/" \o e.args.dis \o "/" \o ZoneTag(Z(e))
     [] e.op = "Zoned.fromPartial" -> "bag/" \o e.args.offk \o "/" \o e.args.offopt \o "/" \o Classify(Z(e), e.args.w) \o "/" \o ZoneTag(Z(e))
+    [] e.op = "Zoned.fromDate" -> "fromDate/" \o e.args.tt \o "/" \o Classify(Z(e), e.args.day * 86400) \o "/" \o ZoneTag(Z(e))
     [] e.op = "Zoned.relTo" -> "relativeTo/" \o e.args.offk \o "/" \o Classify(Z(e), e.args.w) \o "/" \o ZoneTag(Z(e))
     [] e.op = "Zoned.fromStr" -> e.args.offk \o "/" \o e.args.offopt \o "/" \o Classify(Z(e), e.args.w) \o "/" \o ZoneTag(Z(e))
     [] e.op \in {"Zoned.until", "Zoned.since"} -> Largest(e) \o "/" \o ZoneTag(Z(e))
